@@ -18,17 +18,13 @@ echo "== suite without the change"
 echo "== demo without the change"
 ( cd "$WT" && PYTHONPATH="$WT" /venv/bin/python demo_seeded.py >/dev/null 2>&1; echo "exit=$?" ) | tee "$OUT/demo_without.txt"
 ( cd "$WT" && git stash pop -q )
-echo "== checks against the change applied to /repo"
-if ! git -C /repo apply --check "$OUT/patch.diff" 2>/dev/null; then
-  echo "patch does not apply cleanly to /repo HEAD; trying 3-way"
-fi
-git -C /repo apply --3way "$OUT/patch.diff" 2>&1 | tail -2
-git -C /repo status --short | head -5
+echo "== checks against the change (scratch worktree via VERIF_REPO; /repo is not touched)"
+( cd "$WT" && git stash -q -- panqec; git checkout -q --detach "$(git -C /repo rev-parse HEAD)" 2>/dev/null; git stash pop -q ) 2>&1 | tail -2
+( cd "$WT" && git status --short | head -3 )
 for C in "$@"; do
-  ( cd /verif && timeout 3000 ./check "$C" --tier quick > "$OUT/check_$C.log" 2>&1; echo "check $C exit=$?" ) | tee -a "$OUT/checks.txt"
+  ( cd /verif && VERIF_REPO="$WT" timeout 3000 ./check "$C" --tier quick > "$OUT/check_$C.log" 2>&1; echo "check $C exit=$?" ) | tee -a "$OUT/checks.txt"
   grep -c "^VIOLATION" "$OUT/check_$C.log" | sed "s/^/  VIOLATION lines: /"
   grep "^VIOLATION\|^  obligation" "$OUT/check_$C.log" | head -4 | cut -c1-220
 done
-git -C /repo reset -q --hard HEAD
-git -C /repo status --short | head -3
+( cd /verif && git checkout -q -- evidence 2>/dev/null )
 rm -rf /verif/replays
